@@ -106,3 +106,29 @@ pub open spec fn ecb_cs_dec_tail(d: spec_fn(Blk) -> Blk, c_star: Seq<u8>, c_n: B
 // ciphertext pieces of a stolen message, by variant: (head blocks, C*, C_n) from full blocks cs and tail t
 // CS1: [.. , C*(d) , C_n]  i.e. the last full block of the buffer is split across a block boundary
 pub open spec fn cbc_dec_chain(d: spec_fn(Blk) -> Blk, iv: Blk, cs: Seq<Blk>) -> Seq<Blk> { run(cbc_dec_step(d), seq![iv], cs).1 }
+
+// pieces of a stolen ciphertext by variant: (head blocks decrypted as plain CBC/ECB, C*, C_n)
+pub open spec fn cs_dec_pieces(variant: int, cs: Seq<Blk>, t: Seq<u8>) -> (Seq<Blk>, Seq<u8>, Blk) {
+    let nb = cs.len() as int; let dl = t.len() as int;
+    if dl == 0 { (cs.take(nb - 2), cs[nb - 1], cs[nb - 2]) }                                   // CS3, whole blocks: exchanged
+    else if variant == 1 { let x = cs[nb - 1] + t; (cs.take(nb - 1), x.take(dl), x.skip(dl)) }  // C* then C_n
+    else { (cs.take(nb - 1), t, cs[nb - 1]) }                                                   // C_n then C*
+}
+pub open spec fn cbc_cs_dec(variant: int, d: spec_fn(Blk) -> Blk, iv: Blk, cs: Seq<Blk>, t: Seq<u8>) -> Seq<u8> {
+    let nb = cs.len() as int;
+    if t.len() == 0 && !(variant == 3 && nb >= 2) { flatg(cbc_dec_chain(d, iv, cs)) }
+    else {
+        let pc = cs_dec_pieces(variant, cs, t);
+        let head = pc.0;
+        let prev = if head.len() == 0 { iv } else { head[head.len() - 1] };
+        flatg(cbc_dec_chain(d, iv, head)) + cbc_cs_dec_tail(d, prev, pc.1, pc.2)
+    }
+}
+pub open spec fn ecb_cs_dec(variant: int, d: spec_fn(Blk) -> Blk, cs: Seq<Blk>, t: Seq<u8>) -> Seq<u8> {
+    let nb = cs.len() as int;
+    if t.len() == 0 && !(variant == 3 && nb >= 2) { flatg(ecb_map(d, cs)) }
+    else {
+        let pc = cs_dec_pieces(variant, cs, t);
+        flatg(ecb_map(d, pc.0)) + ecb_cs_dec_tail(d, pc.1, pc.2)
+    }
+}
